@@ -8,7 +8,8 @@ package gabi
 // builder, also under environment-answer deviations) applies the complete alteration menu:
 // single-leaf arithmetic changes, key moves/copies/re-keys, sibling swaps, the split of every
 // hidden attribute into a disclosed part x and a hidden remainder, and order shifts of every
-// response across both ends of the allowed range.  Oracle: semantic (the harness signed the
+// response across both ends of the allowed range.  Every alteration is also made on a struct copy of an object that went through a successful
+// verification before (state left in unexported fields travels along).  Oracle: semantic (the harness signed the
 // credential, so it knows every attribute) + independent reference verifier.
 
 import (
@@ -311,6 +312,10 @@ func c01Run(t *testing.T, sub, keyName string, maxN int, withAlterations bool, m
 				continue
 			}
 			r.Sample(map[string]any{"key": keyName, "shape": sh.name, "disclosed": D, "hidden": vfKeysOf(honest.AResponses)})
+			// an object that has been through a successful verification: whatever the verifier left in its
+			// unexported fields travels with a struct copy
+			verified := c01Clone(honest)
+			vkit.Guard(func() { verified.Verify(pk, vfContext, vfNonce, false) })
 			for _, alt := range c01Alterations(k, honest, attrs) {
 				p := c01Clone(honest)
 				alt.apply(p)
@@ -321,13 +326,31 @@ func c01Run(t *testing.T, sub, keyName string, maxN int, withAlterations bool, m
 				p2 := c01Clone(honest)
 				alt.apply(p2)
 				pan2, _ := vkit.Guard(func() { ok2 = ProofList{p2}.Verify([]*gabikeys.PublicKey{pk}, vfContext, vfNonce, false, nil) })
-				if pan1 || pan2 {
+				// third route: the alteration is made on (a struct copy of) the object that was verified before
+				p3s := *verified
+				fresh := c01Clone(honest)
+				p3s.C, p3s.A, p3s.EResponse, p3s.VResponse, p3s.AResponses, p3s.ADisclosed = fresh.C, fresh.A, fresh.EResponse, fresh.VResponse, fresh.AResponses, fresh.ADisclosed
+				if fresh.NonRevocationProof != nil {
+					p3s.NonRevocationProof = fresh.NonRevocationProof
+				}
+				p3 := &p3s
+				alt.apply(p3)
+				var ok3, ok4 bool
+				pan3, _ := vkit.Guard(func() {
+					ok3 = p3.Verify(pk, vfContext, vfNonce, false)
+					ok4 = ProofList{p3}.Verify([]*gabikeys.PublicKey{pk}, vfContext, vfNonce, false, nil)
+				})
+				if pan1 || pan2 || pan3 {
 					r.Count("panics(not judged here; see C08)", 1)
 				}
 				r.Nontrivial(fmt.Sprintf("alt|%s|%v|%s", sh.name, D, alt.desc))
 				r.Outcome(fmt.Sprintf("%s:%v", alt.class, ok1 || ok2))
 				if ok1 != ok2 && !pan1 && !pan2 {
 					r.Count("ProofD.Verify != ProofList.Verify", 1)
+				}
+				if (ok3 || ok4) && !(ok1 || ok2) {
+					c01Judge(r, pk, attrs, p3, alt.class+"|on-a-previously-verified-object", true, caseID)
+					r.Count("accepted only on a previously verified object", 1)
 				}
 				acc := ok1 || ok2
 				c01Judge(r, pk, attrs, p, alt.class, acc, caseID)
